@@ -22,7 +22,8 @@ RULES = {
     14: "maneuver is listed by its intersection, start lane incoming, end lane outgoing",
     15: "maneuver without connecting lane is a STRAIGHT merger into the start lane's successor, outside intersections",
     16: "intersection maneuvers point back to the intersection and have a connecting lane",
-    17: "incoming lane: road among the intersection's roads, successor is a connecting lane, its maneuvers belong to the intersection",
+    17: ("incoming lane: road among the intersection's roads, it has a successor and (when that successor leads on) some maneuver of "
+         "the intersection passes through it, its maneuvers belong to the intersection"),
     18: "outgoing lane: road among the intersection's roads",
     19: "intersection roads are roads",
     20: "sidewalk crossings point back", 21: "crossing sidewalks list the crossing",
